@@ -113,11 +113,11 @@ class Interp:
         return SElem(z3.Int(self.fresh(prefix)), sort)
 
     # ------------------------------------------------------------------ obligations
-    def check(self, kind, goal, node=None, detail=""):
+    def check(self, kind, goal, node=None, detail="", assume=True):
         name = f"{self.target}#{kind}"
         if node is not None:
             name += "@" + anchor(node)
-        return self.path.prove(name, goal, detail)
+        return self.path.prove(name, goal, detail, assume=assume)
 
     def assume(self, c):
         self.path.assume(c)
@@ -1534,6 +1534,9 @@ class Interp:
                 return cont[j]
             k = self.path.choose(len(cont), [zi(j) == p for p in range(len(cont))])
             return cont[k]
+        if isinstance(cont, SStr) and cont.code is not None:
+            self.norm_index(idx, 1, node, "string index out of range")
+            return cont
         if is_strlike(cont):
             if isinstance(cont, str) and isinstance(idx, int):
                 try:
